@@ -3,7 +3,16 @@ package main
 // splitmix64: every random choice of a run derives from one state seeded from VERIF_SEED.
 type Rng struct{ s uint64 }
 
-func newRng(seed uint64) *Rng { return &Rng{s: seed*0x9E3779B97F4A7C15 + 0x1234567} }
+// newRng scrambles the seed into the initial state: with a state that is merely linear in the seed, the stream of
+// seed k+1 is the stream of seed k shifted by one draw (consecutive VERIF_SEEDs would replay almost the same histories).
+func newRng(seed uint64) *Rng {
+	z := seed + 0x9E3779B97F4A7C15
+	z = (z ^ (z >> 30)) * 0xBF58476D1CE4E5B9
+	z = (z ^ (z >> 27)) * 0x94D049BB133111EB
+	z = z ^ (z >> 31)
+	z = (z ^ (z >> 33)) * 0xFF51AFD7ED558CCD
+	return &Rng{s: z ^ (z >> 29) ^ 0x1234567}
+}
 
 func (r *Rng) u64() uint64 {
 	r.s += 0x9E3779B97F4A7C15
